@@ -41,6 +41,12 @@ def gen(ctx):
         guards = [x for x in ast.walk(f) if isinstance(x, ast.If) and ast.unparse(x.test) == "rejection_reason"]
         if len(guards) != 1 or after not in ast.unparse(guards[0]):
             raise T.Untranslatable(f"UNTRANSLATABLE: {path}:{fn} no longer refuses a rejected name with `{after}`")
+    # local transfers stage the file inside the destination directory, never in the system's temporary directory
+    iou = T.parse(core.REPO / "alpenhorn/io/ioutil.py")
+    for fn in ("hardlink", "local_copy"):
+        tds = [ast.unparse(x) for x in ast.walk(T.find_func(iou, fn)) if isinstance(x, ast.Call) and ast.unparse(x.func).endswith("TemporaryDirectory")]
+        if tds != ["TemporaryDirectory(dir=to_dir, prefix='.alpentemp')"]:
+            raise T.Untranslatable(f"UNTRANSLATABLE: {fn} stages its file in {tds}, expected a '.alpentemp' directory inside to_dir")
     return {"Gen_util": T.HEADER + "Open Scope N_scope.\n" + body + "\n"}
 
 
